@@ -40,6 +40,20 @@ def enumerate_bindings(tier, seed):
             want = ('ok', [struct.pack('>i', 10 + i) if s == 'value' else None for i, s in enumerate(st)])
         if got != want and not (pv < 4 and got[0] == 'exc' and want[0] == 'exc'):
             fails.append('v%d routing %s markers %s by name: %r, expected %r' % (pv, rk, st, got, want))
+    # positional, short sequences: missing trailing markers become UNSET from v4 unless one of them is a routing-key marker
+    for pv, rk, k in itertools.product([3, 4, 5], [None, [0], [2], [1, 0], [0, 2]], [0, 1, 2, 3]):
+        n += 1
+        try:
+            got = ('ok', BoundStatement(_prepared(pv, rk)).bind(list(range(10, 10 + k))).values)
+        except Exception as e:
+            got = ('exc', type(e).__name__)
+        missing_rk = any(i >= k for i in (rk or []))
+        if pv >= 4:
+            want = ('exc', 'ValueError') if missing_rk else ('ok', [struct.pack('>i', 10 + i) for i in range(k)] + [UNSET_VALUE] * (3 - k))
+        else:
+            want = ('exc', 'ValueError') if k < len(rk or []) else ('ok', [struct.pack('>i', 10 + i) for i in range(k)])
+        if got != want:
+            fails.append('v%d routing %s, %d positional values: %r, expected %r' % (pv, rk, k, got, want))
     for pv in (3, 4):
         n += 1
         try:
